@@ -127,6 +127,31 @@ class Check:
     def note(self, text):
         self.notes.append(text)
 
+    def share(self, prop, pred, minimum=1):
+        """Adopt rule instances decided by another property's rule module (same world, same source): a clause that two
+        properties have in common is decided once and reported by both.  Adopted instances are prefixed `<prop>:`."""
+        from . import rules
+
+        mod = rules.load(prop)
+        sub = Check(prop, self.tier, self.world, getattr(mod, "LEVEL", "other"), quiet=True)
+        try:
+            mod.run(sub)
+        except AnalysisError as e:
+            self.add("ENGINE", f"{prop}:anchor", ("?", "?", 0), VANISHED, str(e))
+            return 0
+        n = 0
+        for i in sub.instances:
+            if pred(i):
+                i.name = f"{prop}:{i.name}"
+                self.instances.append(i)
+                n += 1
+        self.analysed_functions |= sub.analysed_functions
+        self.analysed_modules |= sub.analysed_modules
+        if n < minimum:
+            self.add("ENGINE", f"{prop}:shared-instances", ("?", "?", 0), UNDECIDED,
+                     f"expected at least {minimum} shared instances from {prop}, found {n}")
+        return n
+
     # -- anchors ----------------------------------------------------------------------
     def func(self, rel, qual):
         return self.R.ctx(rel, qual)
